@@ -27,7 +27,7 @@ and placeholders travel with their bytes (so a backfilled placeholder holds its 
 
 ASSUMPTIONS = ['SlidingDeque / SortedDeque clauses (C15, C16)', 'C04 for placeholder visibility']
 
-FLOORS = {'R3.1': 7, 'R3.2': 9, 'R3.3': 6, 'R3.4': 30}
+FLOORS = {'R3.1': 7, 'R3.2': 9, 'R3.3': 6, 'R3.4': 1}
 
 
 def _nonempty_fact(fn, bb, slice_expr_show=None):
@@ -120,11 +120,18 @@ def r3_2(cx):
     if ok:
         cnt = adv[0].arg(1).strip()
         summed = cs_[0][1].b.strip() if cs_[0][1].kind == 'binop' else None
-        ok = is_call(cnt, 'Ord::min') and summed is not None and is_call(summed, 'Iterator::sum') and \
-            any(n.kind == 'agg' and n.info.get('variant') == 'RangeTo' and show(n.args[0].strip()) == show(cnt) for n in summed.walk()) and \
-            cn[0][1].kind == 'binop' and show(cn[0][1].b.strip()) == show(cnt)
-        cl = prog.closures_of(f)
-        ok = ok and cl and is_call(cl[0].local_expr(0, []), 'len')
+        over_prefix = summed is not None and any(n.kind == 'agg' and n.info.get('variant') == 'RangeTo' and show(n.args[0].strip()) == show(cnt) for n in summed.walk())
+        ok = is_call(cnt, 'Ord::min') and over_prefix and cn[0][1].kind == 'binop' and show(cn[0][1].b.strip()) == show(cnt)
+        if ok and is_call(summed, 'Iterator::sum'):
+            cl = prog.closures_of(f)
+            ok = bool(cl) and is_call(cl[0].local_expr(0, []), 'len')
+        elif ok:
+            # the explicit spelling: acc = 0; for s in slices[..n].iter() { acc += s.len() }
+            alts = [a.strip() for a in phi_alts(summed)]
+            zero = [a for a in alts if a.is_const_int(0)]
+            adds = [a for a in alts if a.kind == 'binop' and a.op == 'Add']
+            ok = len(zero) == 1 and len(adds) == len(alts) - 1 and adds and all(
+                any(is_call(x, 'len') and x.has_call('Iterator>::next') and not any(n.kind == 'binop' for n in x.walk()) for x in (a.a, a.b)) for a in adds)
     cx.check(bool(ok), 'consume-counters', f, None, 'consumed_size += sum(len(slices[..n])); consumed_slices += n; slices.advance(n) with the same n = min(count, len)',
              fail_detail='GlobalDeque::consume does not move its counters by what it advances')
     r = f.local_expr(0, []).strip()
@@ -204,19 +211,17 @@ def r3_3(cx):
 
 
 def r3_4(cx):
-    """the consumer sees only the stable prefix, which stops at the earliest pending placeholder; consumption clamped by it; placeholders travel with their bytes (R4.1-R4.3, R4.6)"""
-    sub = cx.__class__(cx.prog, cx.profile, cx.prop)
-    for rid, f in (('R4.1', c04.r4_1), ('R4.2', c04.r4_2), ('R4.3', c04.r4_3), ('R4.6', c04.r4_6)):
-        sub.rule = rid
-        try:
-            f(sub)
-        except Unrecognised as e:
-            sub.unrecognised('anchor', detail='rule cannot be evaluated on this tree: %s' % e)
-    for rec in sub.records:
-        rec = dict(rec)
-        rec['instance'] = rec['rule'] + ':' + rec['instance']
-        rec['rule'] = cx.rule
-        cx.records.append(rec)
+    """the consumer sees only the stable prefix, which stops at the earliest pending placeholder; consumption clamped by it; placeholders are keyed and patched at the right byte and travel with their bytes; separate iovecs never share an allocation cache (R4.1-R4.3, R4.5, R4.6, R20.1)"""
+    from . import c20
+    compose(cx, [('R4.1', c04.r4_1), ('R4.2', c04.r4_2), ('R4.3', c04.r4_3), ('R4.5', c04.r4_5), ('R4.6', c04.r4_6), ('R20.1', c20.r20_1)])
 
 
-RULES = [('R3.1', r3_1), ('R3.2', r3_2), ('R3.3', r3_3), ('R3.4', r3_4)]
+def r3_5(cx):
+    """offsets, sizes and counts are never silently truncated: every integer cast in owning_iovec and sliding_deque is lossless on every path (or audited)"""
+    from engine.woodlint.core import table
+    prog = cx.prog
+    fns = [f for f in prog.fns.values() if f.crate in ('owning_iovec', 'sliding_deque') and (f.kind == 'Closure' or (not f.d.get('derived') and 'fmt::' not in f.name))]
+    lossless_casts(cx, fns, table('casts_owning_iovec'), 'a byte offset, size or slice index stored modulo 2^32 points at the wrong byte once the iovec is large enough')
+
+
+RULES = [('R3.1', r3_1), ('R3.2', r3_2), ('R3.3', r3_3), ('R3.4', r3_4), ('R3.5', r3_5)]
